@@ -756,6 +756,43 @@ def l24(led, rid, ctx):
     led.floor(rid, "sites that shrink a profile's task list", n, 2)
 
 
+def l25(led, rid, ctx):
+    """CACHE-KEY: the explanation memoised per profile (OnceCell::get_or_init, reset whenever the
+    handler moves to another profile — L12) is a function of the profile only: the initialising
+    closure captures nothing that is derived from the task being propagated.  A value that depends
+    on the task but is cached per profile is reused for the next task of the same profile."""
+    lib = ctx.lib
+    n = 0
+    for f in lib.fns.values():
+        if "/cumulative/" not in f.file or "/tests" in f.file:
+            continue
+        R = None
+        for c in f.calls:
+            if c.name != "get_or_init" or len(c.args) < 2:
+                continue
+            R = R or resolver(f)
+            recv = R.operand(c.args[0])
+            if "stored_profile_explanation" not in recv.fields():
+                continue
+            n += 1
+            clo = peel(R.operand(c.args[1]), calls=None)
+            bad = []
+            if clo.k == "closure":
+                for cap in clo.b or []:
+                    for x in cap.walk():
+                        if x.k == "arg" and 1 <= x.a <= len(f.args):
+                            ty = f.args[x.a - 1]["ty"]
+                            if "Task<" in ty and "ResourceProfile" not in ty:
+                                bad.append("argument %d (%s)" % (x.a, ty.split("::")[-1][:40]))
+            else:
+                bad.append("an initialiser that is not a closure")
+            led.check(not bad, rid, "%s:cache-depends-on-profile-only" % f.name, c.span, "captures: self, context, profile",
+                      "%s memoises the profile explanation with an initialiser that depends on %s: the cache is "
+                      "keyed on the profile, so the value computed for one task is handed out for the next task of "
+                      "the same profile, for which it need not overflow the capacity" % (f.name, ", ".join(sorted(set(bad)))))
+    led.floor(rid, "memoised profile explanations", n, 1)
+
+
 def l21(led, rid, ctx):
     """PropositionalConjunction::extend_and_remove_duplicates is a set union: it treats predicates as
     opaque values (equality / hashing only) and neither drops nor rewrites one because of its content"""
@@ -870,4 +907,5 @@ def run(ctx, led):
     run_rule(led, "L21", "extend_and_remove_duplicates is an opaque set union", l21, ctx)
     run_rule(led, "L22", "eager reasons over the constraint's variables select by position only, never by a test on the current domains", l22, ctx)
     run_rule(led, "L23", "MUST-PASS: buffered lazy explanations are rebuilt on every call", l23, ctx)
+    run_rule(led, "L25", "CACHE-KEY: the per-profile explanation cache is initialised from the profile only", l25, ctx)
     run_rule(led, "L24", "WHO-MAY-SHRINK: tasks leave a resource profile only where a mandatory part is undone", l24, ctx)
